@@ -44,7 +44,7 @@ Fixpoint taint_stmts (ss : list stmt) (τ : tenv) : option tenv :=
   end.
 
 (* ---------------------------------------------------------------- the invariant: a tainted value is typed secret *)
-Definition PT (b : bool) (t : sty) : Prop := b = true -> fst t = MSecret.
+Definition PT (b : bool) (t : sty) (_ : option Z) : Prop := b = true -> fst t = MSecret.
 Notation val_ok := (ScalarInv.val_ok bool PT).
 Notation env_ok := (ScalarInv.env_ok bool PT).
 Notation step_ok := (ScalarInv.step_ok bool PT).
